@@ -57,7 +57,15 @@ def main():
     try:
         for k in ks:
             patch = out / f"patch{k}.diff"
-            demo = out / f"demo{k}.py"
+            demo_src = out / f"demo{k}.py"
+            # demos may hard-code the seeding agent's worktree (test
+            # helpers): point them at the evaluation worktree here and at
+            # /repo in the stored copy
+            import re
+            text = demo_src.read_text()
+            demo = wt.parent / f"{wt.name}_demo{k}.py"
+            demo.write_text(re.sub(r"/tmp/seed/wt_C\d+", str(wt), text))
+            stored_demo = re.sub(r"/tmp/seed/wt_C\d+", "/repo", text)
             meta = json.loads((out / f"meta{k}.json").read_text())
             env = f"cd {wt} && PYTHONPATH={wt}"
             sh(f"git -C {wt} checkout -- . && git -C {wt} clean -fdq -e '*.so' "
@@ -97,7 +105,7 @@ def main():
                 d = VERIF / "seeded" / f"{prop}_{k}"
                 d.mkdir(parents=True, exist_ok=True)
                 shutil.copy(patch, d / "patch.diff")
-                shutil.copy(demo, d / "demo.py")
+                (d / "demo.py").write_text(stored_demo)
                 (d / "meta.json").write_text(json.dumps(rec, indent=1))
             summary.append((k, "confirmed" if confirmed else "NOT confirmed",
                             f"clean={r_clean.returncode} "
@@ -106,6 +114,7 @@ def main():
                             "caught by", caught, "exit2", broken))
     finally:
         sh(f"git -C /repo worktree remove --force {wt}")
+        sh(f"rm -f {wt.parent}/{wt.name}_demo*.py")
     for s in summary:
         print(prop, *s)
 
